@@ -24,6 +24,10 @@ from . import smt, zeval
 from .sym import Sym, SymBool, Ctx, Fr, symarr, const_arr, tosym, isnum, val, flat_syms
 from .explorer import Explorer, PathAbort, Infeasible
 
+import logging
+logging.getLogger('skfem').setLevel(logging.CRITICAL)      # the library's warnings are not part of any obligation
+logging.getLogger().setLevel(logging.CRITICAL)
+
 VERIF = os.path.dirname(os.path.dirname(os.path.abspath(__file__)))
 REPO = os.environ.get('VERIF_REPO', '/repo')
 FLOAT_TOL = 1e-9
